@@ -65,9 +65,9 @@ PLANS.update({
     "C11": mem("C11", ["vec", "comp"], "one case per generated transition of MCMem whose target node is a FlatVec / FlatString (top level, struct tail, enum payload, FlexVec item); "
                "x3 fills; compared: result, returned element, len/capacity/contents, remaining, size(), ==, validate, re-map, determined bytes; non-trivial = all of them",
                ["op.vec.push.ok", "op.vec.push.refused", "op.vec.pop.*", "op.vec.push_slice.refused", "op.vec.remove.ok", "op.vec.swap_remove.ok", "op.vec.resize.ok", "op.vec.set.ok", "op.vec.extend.ok", "op.vec.truncate.ok", "op.str.push.ok", "op.str.push_str.refused", "op.str.clear.ok"]),
-    "C12": mem("C12", ["flex", "comp"], "one case per generated transition whose target is a FlexVec or lies inside a FlexVec item (item edits); compared: result, len(), is_empty(), items in order with contents and capacities, validate, re-map, determined bytes",
+    "C12": mem("C12", ["flex", "comp", "big"], "one case per generated transition whose target is a FlexVec or lies inside a FlexVec item (item edits); compared: result, len(), is_empty(), items in order with contents and capacities, validate, re-map, determined bytes",
                ["op.flex.push.ok", "op.flex.push.refused", "op.flex.pop.ok", "op.flex.pop.refused", "op.flex.truncate.ok", "op.flex.clear.ok", "op.flex.push_default.*"]),
-    "C13": mem("C13", ["follow"], "refused push / push_slice / push_str / FlexVec push (every way of not fitting the bounded universe offers) and, after each, every operation enabled on the same node as a follow-up compared with the model's successor from the unchanged state",
+    "C13": mem("C13", ["follow", "big"], "refused push / push_slice / push_str / FlexVec push (every way of not fitting the bounded universe offers) and, after each, every operation enabled on the same node as a follow-up compared with the model's successor from the unchanged state",
                ["op.vec.push.refused", "op.vec.push_slice.refused", "op.str.push_str.refused", "op.flex.push.refused", "op.*.refused.follow"]),
     "C14": mem("C14", ["vec", "flex", "comp"], "every generated transition (successful and refused): canary bytes on both sides of the slice and every byte outside the node being changed (SAME positions of the mask) compared before/after",
                ["op.vec.*", "op.flex.*", "op.*.assign.*", "op.*.set.ok"]),
@@ -97,6 +97,14 @@ PLANS.update({
     "C17": emp("C17", "cases of portable catalog types (portable structs / enums, containers of portable items with portable length types) at every address offset 0..3: ALIGN = 1, emplacement succeeds at odd addresses, bytes equal the reference serialisation",
                ["emp.new.ok.misaligned"]),
 })
+PLANS["C17"]["quick"].append({"type": "negative", "only_portable": True})
+PLANS["C17"]["thorough"].append({"type": "negative", "only_portable": True})
+PLANS["C17"]["must_exercise"].append("neg.case")
+PLANS["C17"]["rule"] += "; plus the negative catalog (portable definitions with a non-portable field in first / last position, native length types): each must be rejected at compile time"
+PLANS["C17"]["quick"].append({"type": "tlc-replay", "module": "MCMem", "cfg": "MCMem_port_quick.cfg"})
+PLANS["C17"]["thorough"].append({"type": "tlc-replay", "module": "MCMem", "cfg": "MCMem_port_thorough.cfg"})
+PLANS["C17"]["rule"] += "; plus every generated transition of MCMem on the portable container / composite types (push, pop, truncate, assign ...): bytes equal the reference serialisation, size() the reference extent"
+PLANS["C17"]["must_exercise"].append("op.flex.push.ok")
 PLANS["C14"]["quick"].append({"type": "tlc-replay", "module": "MCEmplace", "cfg": "MCEmplace_quick.cfg"})
 PLANS["C14"]["thorough"].append({"type": "tlc-replay", "module": "MCEmplace", "cfg": "MCEmplace_thorough.cfg"})
 PLANS["C14"]["must_exercise"].append("emp.new.*")
@@ -134,14 +142,16 @@ PLANS["C16"] = {
 # ---- IO ------------------------------------------------------------------------------------------------
 IO_BASE = """CONSTANTS
   NV = 2
-  MaxLen = 2
+  MaxLen = 5
   MaxItems = 1
   ArgVals = 1
   AssignMax = 4
 """
 
-def io_recv_cfg(msg, nmsgs, chunk, faults, policy, record, arbitrary=False, rawlen=0, live=False):
-    name = "MCIoRecv_%s_n%d_c%d_f%d_%s%s%s.cfg" % (msg, nmsgs, chunk, faults, policy, "_arb%d" % rawlen if arbitrary else "", "_live" if live else "")
+ERRKINDS = '{"Other", "Interrupted", "WouldBlock", "ConnectionReset", "TimedOut"}'
+
+def io_recv_cfg(msg, nmsgs, chunk, faults, policy, record, arbitrary=False, rawlen=0, live=False, cap=1000):
+    name = "MCIoRecv_%s_n%d_c%d_f%d_%s%s%s%s.cfg" % (msg, nmsgs, chunk, faults, policy, "_arb%d" % rawlen if arbitrary else "", "_capx%d" % cap if cap < 1000 else "", "_live" if live else "")
     txt = "SPECIFICATION %s\n" % ("SpecP" if record else "Spec") + IO_BASE + """  MsgId = "%s"
   NMsgs = %d
   RawLen = %d
@@ -150,11 +160,13 @@ def io_recv_cfg(msg, nmsgs, chunk, faults, policy, record, arbitrary=False, rawl
   MsgT <- MT
   Streams <- MCStreams
   MaxMsgLen <- MML
+  CapExtra = %d
   ChunkMax = %d
   FaultMax = %d
   Policy = "%s"
+  ErrKinds = %s
   Record = %s
-""" % (msg, nmsgs, rawlen, "TRUE" if arbitrary else "FALSE", chunk, faults, policy, "TRUE" if record else "FALSE")
+""" % (msg, nmsgs, rawlen, "TRUE" if arbitrary else "FALSE", cap, chunk, faults, policy, ERRKINDS if record else '{"Other"}', "TRUE" if record else "FALSE")
     if record:
         txt += "VIEW View\n"
     txt += "INVARIANTS WindowInv HeadInv GuardInside BoundedCalls DeliveredInOrder ClosedMeansAll ParseNotStarve\n"
@@ -172,8 +184,9 @@ def io_send_cfg(msg, nmsgs, chunk, faults, retry, record, live=False):
   ChunkMax = %d
   FaultMax = %d
   Retry = %d
+  ErrKinds = %s
   Record = %s
-""" % (msg, nmsgs, chunk, faults, retry, "TRUE" if record else "FALSE")
+""" % (msg, nmsgs, chunk, faults, retry, ERRKINDS if record else '{"Other"}', "TRUE" if record else "FALSE")
     if record:
         txt += "VIEW View\n"
     txt += "INVARIANTS SinkFramed BoundedCalls PoisonedStops\n"
@@ -223,6 +236,8 @@ PLANS.update({
                    ["iorecv.valid.*", "iosend.*"],
                    [io_recv_cfg("UE6", 3, 24, 0, "any", False, live=True), io_send_cfg("UE6", 3, 12, 0, 0, False, live=True)]
                    + [io_recv_cfg(m, n, c, 0, "code", True) for m, n, c in [("UE6", 3, 24), ("US2", 2, 16), ("V_u8_u32", 2, 16), ("X_vu8_u8", 2, 8)]]
+                   + [io_recv_cfg("UE6", 3, 12, 0, "code", True, cap=c) for c in (0, 4, 12)]      # capacities down to the largest message
+                   + [io_recv_cfg("US2", 3, 12, 0, "code", True, cap=0)]
                    + [io_send_cfg(m, 3, 12, 0, 0, True) for m in ["UE6", "US2", "X_vu8_u8"]],
                    [io_recv_cfg("UE6", 3, 24, 0, "any", False, live=True), io_send_cfg("UE6", 3, 12, 0, 0, False, live=True)]
                    + [io_recv_cfg(m, n, c, 0, "code", True) for m, n, c in [("UE6", 4, 24), ("US2", 3, 16), ("US1", 2, 48), ("V_u8_u32", 3, 16), ("X_vu8_u8", 3, 8), ("UE1", 3, 16), ("SS1", 2, 48)]]
@@ -241,18 +256,21 @@ PLANS.update({
                    "and completion of both futures under fair polling; every finished poll prints its path (schedule, chunk limits, spurious Pendings), replayed with a hand-driven poller against the real async Sender/Receiver; "
                    "after the path both tasks are polled fairly and must complete.",
                    "one path per finished poll of the model: every interleaving of polls of the two tasks, every chunk limit up to ChunkMax, every placement of up to SpurMax spurious Pendings on poll_write / poll_flush / poll_read, pipe capacities 1, 2, 3, 5, 17; non-trivial = all",
-                   ["ioasync.polls.*complete", "ioasync.polls.spurious.*", "ioasync.polls.prefix"],
+                   ["ioasync.polls.*complete", "ioasync.polls.spurious.*", "ioasync.polls.prefix", "ioasync.recv-paths"],
                    [io_async_cfg("UE6", 2, 3, 3, 1, False, live=True)]
                    + [io_async_cfg("UE6", 2, pc, ch, sp, True) for pc, ch, sp in [(1, 1, 1), (2, 2, 1), (3, 3, 2), (5, 5, 2), (17, 8, 1)]]
                    + [io_async_cfg("US2", 2, pc, ch, 1, True) for pc, ch in [(3, 3), (5, 4)]]
-                   + [io_async_cfg("X_vu8_u8", 3, 2, 2, 1, True)],
+                   + [io_async_cfg("X_vu8_u8", 3, 2, 2, 1, True)]
+                   + [io_async_cfg("UE6", 4, 17, 12, 0, True)]                                     # stream longer than the receive buffer, lagging receiver
+                   + [io_recv_cfg("UE6", 3, 12, 0, "code", True, cap=c) for c in (0, 4)]           # async receiver alone: every chunking, tight capacities
+                   + [io_recv_cfg("US2", 3, 12, 0, "code", True, cap=0)],
                    [io_async_cfg("UE6", 2, 3, 3, 2, False, live=True)]
                    + [io_async_cfg("UE6", 3, pc, ch, sp, True) for pc, ch, sp in [(1, 1, 2), (2, 2, 2), (3, 3, 2), (5, 5, 2), (17, 12, 2)]]
                    + [io_async_cfg(m, 2, pc, ch, 2, True) for m in ["US2", "UE1", "V_u8_u32"] for pc, ch in [(1, 1), (3, 3), (5, 4)]]
                    + [io_async_cfg("X_vu8_u8", 3, pc, 2, 2, True) for pc in [1, 2, 5]]),
     "C10": io_plan(IO_TEXT, "receiver model fed arbitrary streams: all strings over {0,1,2,255} up to RawLen, a valid stream with one byte replaced (first 12 positions x 3 values), a valid stream truncated at every position; every chunking; non-trivial = all",
                    ["iorecv.arbitrary.*"],
-                   [io_recv_cfg(m, 2, 4, 0, "code", True, arbitrary=True, rawlen=r) for m, r in [("UE6", 4), ("X_vu8_u8", 4), ("US2", 3)]],
+                   [io_recv_cfg(m, 2, 4, 0, "code", True, arbitrary=True, rawlen=r) for m, r in [("UE6", 4), ("X_vu8_u8", 4), ("US2", 3), ("V_u8_u16", 3)]],
                    [io_recv_cfg(m, 2, 6, 0, "code", True, arbitrary=True, rawlen=r) for m, r in [("UE6", 5), ("X_vu8_u8", 5), ("US2", 4), ("UE1", 4), ("X_s8_u16", 4)]]),
 })
 
